@@ -530,3 +530,39 @@ Definition C02_nd_select_examples_statement := ltac:(let t := type of nd_select_
 Theorem C02_nd_select_examples : C02_nd_select_examples_statement.
 Proof. exact nd_select_examples. Qed.
 Print Assumptions C02_nd_select_examples.
+
+(** the partial-revert theorem on every n-d toy graph whose per-individual derived nodes are entry-wise (any number of parents,
+    weighted parents included): [F_mix] is PROVED there (StateNdFmixProofs.v), no hypothesis on node functions is left *)
+From Leaspy Require Import State.StateNow State.StateNdFmixProofs.
+
+Theorem C02_partial_revert_nd :
+  forall l : list dspec,
+  gwf_b (mk_ngraph l) = true -> entrywise_axis_b l = true ->
+  let g := mk_ngraph l in
+  forall (st : state nval) (i : nat) (o : option nval) (reads : list nat) (m : nmask),
+    Good g st -> mode st <> None -> i < gn g -> settable g i = true -> ind_axis g i = true ->
+    (forall r, In r reads -> axis_read_ok g i r) ->
+    let st1 := fst (set_state g true st i o) in
+    let st2 := gets g st1 reads in
+    shapes_ok g nsem m i (values st) (values st2) ->
+    let st3 := fst (revert_mask_state nsem st2 m) in
+    snd (revert_mask_state nsem st2 m) = Done /\
+    (forall j, In j (i :: desc g i) ->
+       values st3 j = match values st j, values st2 j with Some old, Some cur => nselect m old cur | _, _ => None end) /\
+    (forall j, ~ In j (i :: desc g i) -> values st3 j = values st2 j) /\
+    (forall j w, ~ In j (i :: desc g i) -> values st j = Some w -> values st3 j = Some w) /\
+    (forall j, In j (desc g i) -> ind_axis g j = false -> values st3 j = None) /\
+    Good g st3 /\ fork st3 = None /\ mode st3 = mode st.
+Proof. exact partial_revert_nd. Qed.
+Print Assumptions C02_partial_revert_nd.
+
+(** a value weighted on ONE side only, with what torch does: the history meets the precondition, the rejected row of the variable
+    itself carries the weight of the rejected proposal and a cached derived value is stale (a finding, replayed on the code) *)
+Theorem C02_one_sided_weight_refuted :
+  gwf_b (mk_ngraph one_sided_nodes) = true /\
+  MaskDisciplined (mk_ngraph one_sided_nodes) nsem_torch (init_store (mk_ngraph one_sided_nodes)) one_sided_ops /\
+  nread_of (mk_ngraph one_sided_nodes) nsem_torch true one_sided_ops 0 0 = Ok (NW (vec [5; 2]%Z) (Some (vec [0; 1]%Z))) /\
+  nread_of (mk_ngraph one_sided_nodes) nsem_torch true one_sided_ops 0 1 = Ok (NP (vec [5; 2]%Z)) /\
+  nfresh_of (mk_ngraph one_sided_nodes) nsem_torch true one_sided_ops 0 1 = Some (Some (NP (vec [0; 2]%Z))).
+Proof. exact one_sided_weight_refuted. Qed.
+Print Assumptions C02_one_sided_weight_refuted.
